@@ -132,6 +132,10 @@ def mk_iso4_unit(L):
         pb = E.instantiate(cls, [pin], {'random_value': VBV(rnd)})
         E.prove('Iso4/supplied-random-draws-nothing[pin=%d]' % L, z3.BoolVal(E.ghost.get('randbits_calls', 0) == 0), 'P')
         expect_bytes(E, 'Iso4.to_bytes=ISO9564-format4[pin=%d,supplied]' % L, E.method(pb, 'to_bytes'), spec_iso4(pin.items, rnd))
+        # the random value is the constructor's second parameter: supplied positionally it is carried just the same
+        pbp = E.instantiate(cls, [pin, VBV(rnd)], {})
+        E.prove('Iso4/positional-random-draws-nothing[pin=%d]' % L, z3.BoolVal(E.ghost.get('randbits_calls', 0) == 0), 'P')
+        expect_bytes(E, 'Iso4.to_bytes=ISO9564-format4[pin=%d,supplied positionally]' % L, E.method(pbp, 'to_bytes'), spec_iso4(pin.items, rnd))
         # none supplied: exactly one fresh 64-bit draw per block, and it is what the block carries
         pa = E.instantiate(cls, [pin], {})
         pb_ = E.instantiate(cls, [pin], {})
